@@ -48,7 +48,7 @@ def _write_config(repo, scratch, cfg):
     return path, docroot
 
 
-def _child(conf_path, docroot, fault_name, fault_index, wfd):
+def _child(conf_path, docroot, fault_name, fault_index, wfd, starter="root"):
     """Runs in a forked child: install recorders, run the real initialize(), report events."""
     import errno
     import grp
@@ -58,26 +58,41 @@ def _child(conf_path, docroot, fault_name, fault_index, wfd):
     import ssl
 
     events = []
-    sim = {"chrooted": False, "n": 0}
+    # the emulated kernel identity: uid 0, or an ordinary account (OTHER) that is not the configured one
+    OTHER = 1000
+    sim = {"chrooted": False, "n": 0, "uid": 0 if starter == "root" else OTHER}
+    os.geteuid = os.getuid = lambda: sim["uid"]
+    os.getegid = os.getgid = lambda: 0 if starter == "root" else OTHER
+    os.getresuid = lambda: (sim["uid"],) * 3
     real_docroot = os.path.realpath(docroot)
 
     def should_fail(name):
         sim["n"] += 1
         return name == fault_name or sim["n"] == fault_index
 
-    def rec(name, **kw):
+    def rec(name, needs_root=False, **kw):
         ok = not should_fail(name)
+        if needs_root and sim["uid"] != 0:      # what the kernel does for an unprivileged caller
+            ok = False
         e = {"ev": name, "ok": ok}
         e.update(kw)
         events.append(e)
         if not ok:
             if name == "loadtls":
                 raise ssl.SSLError("injected: cannot load certificate")
+            if name in ("lookupuser", "lookupgroup"):
+                raise KeyError("injected: name not found: %r" % (kw.get("account"),))
             raise OSError(errno.EPERM, "injected: Operation not permitted")
+
+    def setuid_like(full, target):
+        # setreuid & co.: root may become anybody, anybody may "become" itself
+        rec("setuid", needs_root=(target != sim["uid"]), full=full)
+        if full:
+            sim["uid"] = target
 
     def chroot(path):
         p = os.fsdecode(path)
-        rec("chroot", docroot=(os.path.realpath(p) == real_docroot and not sim["chrooted"]))
+        rec("chroot", needs_root=True, docroot=(os.path.realpath(p) == real_docroot and not sim["chrooted"]))
         sim["chrooted"] = True
 
     def chdir(path):
@@ -90,26 +105,33 @@ def _child(conf_path, docroot, fault_name, fault_index, wfd):
         rec("chdir", inside=inside)
 
     def setgroups(g):
-        rec("setgroups", empty=(len(list(g)) == 0))
+        rec("setgroups", needs_root=True, empty=(len(list(g)) == 0))
 
     def initgroups(user, gid):
-        rec("setgroups", empty=False)
+        rec("setgroups", needs_root=True, empty=False)
 
     os.chroot, os.chdir, os.fchdir = chroot, chdir, (lambda fd: rec("chdir", inside=False))
     os.setgroups, os.initgroups = setgroups, initgroups
-    os.setregid = lambda r, e: rec("setgid", full=(r == GID and e == GID))
-    os.setgid = lambda g: rec("setgid", full=(g == GID))
-    os.setresgid = lambda r, e, s: rec("setgid", full=(r == GID and e == GID and s == GID))
-    os.setegid = lambda g: rec("setgid", full=False)
-    os.setreuid = lambda r, e: rec("setuid", full=(r == UID and e == UID))
-    os.setuid = lambda u: rec("setuid", full=(u == UID))
-    os.setresuid = lambda r, e, s: rec("setuid", full=(r == UID and e == UID and s == UID))
-    os.seteuid = lambda u: rec("setuid", full=False)
+    os.setregid = lambda r, e: rec("setgid", needs_root=True, full=(r == GID and e == GID))
+    os.setgid = lambda g: rec("setgid", needs_root=True, full=(g == GID))
+    os.setresgid = lambda r, e, s: rec("setgid", needs_root=True, full=(r == GID and e == GID and s == GID))
+    os.setegid = lambda g: rec("setgid", needs_root=True, full=False)
+    os.setreuid = lambda r, e: setuid_like(r == UID and e == UID, e)
+    os.setuid = lambda u: setuid_like(u == UID, u)
+    os.setresuid = lambda r, e, s: setuid_like(r == UID and e == UID and s == UID, e)
+    os.seteuid = lambda u: setuid_like(False, u)
     os.setpgrp = lambda: None
     os.setsid = lambda: None
     signal.signal = lambda *a, **k: None
-    pwd.getpwnam = lambda n: pwd.struct_passwd((n, "x", UID, UID, "", "/", "/bin/false"))
-    grp.getgrnam = lambda n: grp.struct_group((n, "x", GID, []))
+    def getpwnam(n):
+        rec("lookupuser", account=n)
+        return pwd.struct_passwd((n, "x", UID, UID, "", "/", "/bin/false"))
+
+    def getgrnam(n):
+        rec("lookupgroup", account=n)
+        return grp.struct_group((n, "x", GID, []))
+
+    pwd.getpwnam, grp.getgrnam = getpwnam, getgrnam
 
     real_load = ssl.SSLContext.load_cert_chain
 
@@ -164,7 +186,7 @@ def _child(conf_path, docroot, fault_name, fault_index, wfd):
     os._exit(0)
 
 
-def run_case(repo, cfg, fault_name=None, fault_index=0):
+def run_case(repo, cfg, fault_name=None, fault_index=0, starter="root"):
     scratch = tempfile.mkdtemp(prefix="verif-c19-", dir=tlc.scratch_root())
     try:
         conf_path, docroot = _write_config(repo, scratch, cfg)
@@ -173,7 +195,7 @@ def run_case(repo, cfg, fault_name=None, fault_index=0):
         if pid == 0:
             os.close(r)
             try:
-                _child(conf_path, docroot, fault_name, fault_index, w)
+                _child(conf_path, docroot, fault_name, fault_index, w, starter)
             finally:
                 os._exit(3)
         os.close(w)
@@ -203,31 +225,40 @@ def main(chk, replay=None):
         if res["inv_violations"]:
             chk.model_violation("MC_C19", res["inv_violations"], res["out"][-2000:])
         cases = []
-        for st in iter_dump_states(res["dump"], wanted={"pc", "cfg", "fault", "phase"}):
+        for st in iter_dump_states(res["dump"], wanted={"pc", "cfg", "fault", "phase", "euid"}):
             if st["pc"] == 1 and st["phase"] == "starting":
-                cases.append((dict(st["cfg"]), None if st["fault"] == "none" else st["fault"]))
+                cases.append((dict(st["cfg"]), None if st["fault"] == "none" else st["fault"], st["euid"]))
     finally:
         tlc.cleanup(res)
     if replay:
         with open(replay) as fp:
             rp = json.load(fp)
         c = rp["case"]
-        cases = [(c["cfg"], c.get("fault"))]
+        cases = [(c["cfg"], c.get("fault"), c.get("starter", "root"))]
+        if c.get("fault_index"):
+            cases = []
+            out = run_case(repo, c["cfg"], fault_index=c["fault_index"], starter=c.get("starter", "root"))
+            replayed = [{"id": "replay", "init": {"cfg": c["cfg"], "starter": c.get("starter", "root")}, "events": out["events"],
+                         "case": c, "exc": out["exc"]}]
     # 2. spec -> code: run the real initialize() on every case TLC enumerated
-    traces = []
-    for cfg, fault in cases:
-        out = run_case(repo, cfg, fault_name=fault)
-        traces.append({"id": "cfg=%s fault=%s" % (_cfgstr(cfg), fault), "init": {"cfg": cfg}, "events": out["events"],
-                       "case": {"cfg": cfg, "fault": fault}, "exc": out["exc"]})
+    traces = list(replayed) if replay and not cases else []
+    for cfg, fault, starter in cases:
+        out = run_case(repo, cfg, fault_name=fault, starter=starter)
+        traces.append({"id": "cfg=%s as=%s fault=%s" % (_cfgstr(cfg), starter, fault), "init": {"cfg": cfg, "starter": starter},
+                       "events": out["events"], "case": {"cfg": cfg, "fault": fault, "starter": starter}, "exc": out["exc"]})
     # 3. every call the real code actually made, failing in turn (measured, not predicted)
     if not replay:
-        for cfg, fault in [c for c in cases if c[1] is None]:
-            base = [t for t in traces if t["case"] == {"cfg": cfg, "fault": None}][0]
+        for cfg, fault, starter in [c for c in cases if c[1] is None]:
+            base = [t for t in traces if t["case"] == {"cfg": cfg, "fault": None, "starter": starter}][0]
             ncalls = len([e for e in base["events"] if "ok" in e])
             for k in range(1, ncalls + 1):
-                out = run_case(repo, cfg, fault_index=k)
-                traces.append({"id": "cfg=%s call#%d fails" % (_cfgstr(cfg), k), "init": {"cfg": cfg},
-                               "events": out["events"], "case": {"cfg": cfg, "fault_index": k}, "exc": out["exc"]})
+                out = run_case(repo, cfg, fault_index=k, starter=starter)
+                traces.append({"id": "cfg=%s as=%s call#%d fails" % (_cfgstr(cfg), starter, k), "init": {"cfg": cfg, "starter": starter},
+                               "events": out["events"], "case": {"cfg": cfg, "fault_index": k, "starter": starter}, "exc": out["exc"]})
+    # vacuity guard: started by root and with no fault, the real start-up must get as far as serving
+    for t in traces:
+        if t["case"].get("fault", 0) is None and t["case"].get("starter") == "root" and t["events"][-1]["ev"] != "serve":
+            raise core.MachineryError("C19: fault-free start-up as root did not reach serving for %s: %s" % (t["id"], t["exc"]))
     injected = sum(1 for t in traces if any(e.get("ok") is False for e in t["events"]))
     if not replay and injected == 0:
         raise core.MachineryError("C19: no fault was injected in any run: substitutes not exercised")
@@ -245,8 +276,8 @@ def main(chk, replay=None):
         "states": res["distinct"], "transitions": res["generated"], "exhaustive": True,
         "traces_validated_against_impl": tv["accepted"],
         "evaluations": len(traces), "distinct_nontrivial": nontrivial,
-        "rule": "cases = every initial state of MC_C19 (16 option combinations incl. TLS x every failing call of the "
-                "modelled program) plus, per combination, the k-th call the real initialize() made failing for every k; "
+        "rule": "cases = every initial state of MC_C19 (16 option combinations incl. TLS x started by root or by an ordinary "
+                "account x every failing call of the modelled program, account lookups included) plus, per combination, the k-th call the real initialize() made failing for every k; "
                 "non-trivial = distinct recorded call sequence containing at least one privileged call",
         "samples": [{"id": t["id"], "events": t["events"]} for t in traces[:2] + traces[-2:]],
         "checker_cmd": res["cmd"] + " ; " + tv["cmd"],
